@@ -70,3 +70,10 @@ add("C13", "exploration", "runtime monitor: checkpoint model + storage key-set d
 add("C15", "exploration", "runtime monitor: mutation-based decoder stress from run-time harvested real encodings, panic/fatal/stall oracle with the input written to disk before every call",
     "480 (quick) / 12 800 (thorough) cases, about 3.3 million (quick) derived inputs through CreateNode, DeserializeNode, Deserialize and VerifyBlockProof: exhaustive truncations and first-byte values, separator removal, CBOR head inflation, blob lengths 0..80/0..140, 0..20 children, nil/foreign elements, crafted CBOR, bit flips, random bytes; accepted inputs are re-encoded; panics are violations, worker deaths and 60 s stalls are reported with the on-disk input.",
     "Near-valid derivations and random strings up to 64 KiB, not all byte strings; stall threshold 60 s for calls that normally take microseconds.")
+
+add("C16", "exploration", "runtime monitor: client-boundary history recording + offline porcupine linearizability check against a map model whose root reads must equal the canonical root; reader-only runs vs sequential results; Go race detector",
+    "4 800 (quick) / 150 000 (thorough) small concurrent histories (3-6 goroutines, structurally colliding paths, store-level schedule perturbation, GOMAXPROCS 1-16) each checked by porcupine (timeout = inconclusive), plus 200 / 6 000 reader-only runs on tries with missing nodes; all in the -race binary, every distinct race report is a violation.",
+    "Small histories, many of them; linearizability is judged per history by porcupine v1.3.0; races only on interleavings that occurred.")
+add("C20", "exploration", "runtime monitor: write-sequence model of the ring buffer (exact newest-first snapshot) for sequential histories; suffix/distinctness/order invariants for concurrent histories; Go race detector",
+    "4 800 (quick) / 96 000 (thorough) sequential histories with loggers derived before, during and after wrap, totals around every capacity boundary, exact snapshot comparison and WriteLogs order; 200 / 4 000 concurrent runs in the -race binary with quiescent and in-flight snapshot invariants.",
+    "Capacity from logging.BufferSize; in-flight snapshots are only required to be duplicate-free, made of written ids and per-writer newest-first.")
